@@ -93,6 +93,17 @@ def w_sweeps(ctx, rng, idx):
     # second application on an already orthonormal object must keep everything (idempotence of the value)
     call('TT.ortho_right', a.ortho_right, prop=P)
     call('TT.ortho_left', b.ortho_left, prop=P)
+    if rng.random() < 0.3:
+        # the owner of the orthonormalised trains rescales their cores in place (t.cores[i] *= 3): whatever a sweep hands out belongs
+        # to that train alone - a later sweep on another train of the same shape must come out right
+        with probe.oracle():
+            for x in (a, b, c):
+                for cr in x.cores:
+                    if cr.flags.writeable and cr.dtype.kind in 'fc':
+                        cr *= 3.0
+        e, f = clone(t), clone(t)
+        call('TT.ortho_left', e.ortho_left, prop=P, tags=['after_in_place_change_of_earlier_results'])
+        call('TT.ortho_right', f.ortho_right, prop=P, tags=['after_in_place_change_of_earlier_results'])
     if idx < 3:
         ctx.sample({'workload': 'sweeps', 'row_dims': t.row_dims, 'col_dims': t.col_dims, 'ranks': t.ranks, 'kind': kind})
 
